@@ -274,3 +274,18 @@ Lemma cache_arm_without_subject_refuted :
   get_signed_via PPrimary srv0 now (b "alice") moved None = None /\
   get_signed_via PCache srv0 now (b "bob") None moved = Some (b "bobs-hash").
 Proof. vm_compute. repeat split; reflexivity. Qed.
+
+(* what the storage consumer does NOT bind: the signed data_type.  Two records that differ only in
+   their data_type get the same verdict, whatever slot they sit in (GetSigned(user, type) selects
+   the row by the unsigned type column and never compares it with the signed claim). *)
+Lemma storage_data_type_unbound st now issue user dt dt' data exp col :
+  c_storage st now user {| r_col_exp := col; r_jws := p_storage st issue user dt data exp |} =
+  c_storage st now user {| r_col_exp := col; r_jws := p_storage st issue user dt' data exp |}.
+Proof.
+  unfold c_storage, storage_data, p_storage. cbn [r_col_exp r_jws].
+  destruct (col >? unix now); [|reflexivity].
+  unfold sign, verify. cbn [t_signer t_alg t_tampered t_claims].
+  destruct (trusted_key st (s_signer st) && allowed_alg st (s_signer_alg st) && negb false); [|reflexivity].
+  rewrite !dec_enc_storage. cbn [bind g_iss g_aud g_token_type g_nbf g_exp g_sub g_data].
+  destruct (std_ok st now (s_issuer st) [s_issuer st] k_storage k_storage (unix issue) && negb (exp <? unix now)); reflexivity.
+Qed.
